@@ -55,6 +55,30 @@ class AInt:
             return True
         return None
 
+class AFloat:
+    """an IEEE-754 value known by the provenance of its bit pattern (`bits`, little-endian, `width` 32 or 64)"""
+    __slots__ = ('bits', 'width')
+    def __init__(self, bits, width=32):
+        self.bits = list(bits)
+        self.width = width
+    def __repr__(self):
+        return f"AFloat{self.width}({B.show_vec(self.bits)})"
+
+_STRUCT = {'I': (4, 'int'), 'i': (4, 'sint'), 'f': (4, 'float'), 'd': (8, 'float'), 'Q': (8, 'int'), 'H': (2, 'int'), 'B': (1, 'int')}
+
+def _struct_fmt(fmt):
+    """'<I' -> (byte order, size, kind) for the single-item formats the helpers use; None otherwise"""
+    if not isinstance(fmt, str) or not fmt:
+        return None
+    order = 'little'          # native order on the platforms the library runs on; '<' and '=' say so explicitly
+    f = fmt
+    if f[0] in '<>=!@':
+        order = 'big' if f[0] in '>!' else 'little'
+        f = f[1:]
+    if f not in _STRUCT:
+        return None
+    return (order,) + _STRUCT[f]
+
 class ALin:
     """an integer known as a linear combination of whole input bytes: const + sum(coeff * byte), optionally reduced mod `mod`
     (what a checksum is).  coeffs: {byte symbol (src, i): int}"""
@@ -548,6 +572,30 @@ class Interp:
                 r = la in [x.literal() for x in b.items]
                 return r if isinstance(op, ast.In) else not r
             raise Unknown(f"membership on abstract values at line {getattr(node, 'lineno', 0)}")
+        if isinstance(op, (ast.Is, ast.IsNot)) and (a is None or b is None) and isinstance(a if b is None else b, (AFloat, AInt, ALin)):
+            return isinstance(op, ast.IsNot)
+        if isinstance(a, AFloat) or isinstance(b, AFloat):
+            if self.cmp_oracle is not None:
+                return self.cmp_oracle(op, a, b, node)
+            raise Unknown(f"comparison of a float at line {getattr(node, 'lineno', 0)}")
+        if isinstance(a, AInt) and isinstance(b, AInt) and (a.v is None) != (b.v is None) and isinstance(op, (ast.Lt, ast.LtE, ast.Gt, ast.GtE)):
+            # an abstract non-negative int against a constant: decided when the constant lies outside [all unknown bits 0, all unknown bits 1]
+            x, c, flip = (a, b.v, False) if a.v is None else (b, a.v, True)
+            vec = x.vec()
+            if vec is not None and isinstance(c, int):
+                lo = sum((1 if bit == 1 else 0) << k for k, bit in enumerate(vec))
+                hi = sum((0 if bit == 0 else 1) << k for k, bit in enumerate(vec))
+                o = type(op)
+                if flip:
+                    o = {ast.Lt: ast.Gt, ast.LtE: ast.GtE, ast.Gt: ast.Lt, ast.GtE: ast.LtE}[o]
+                if o is ast.Lt and hi < c: return True
+                if o is ast.Lt and lo >= c: return False
+                if o is ast.LtE and hi <= c: return True
+                if o is ast.LtE and lo > c: return False
+                if o is ast.Gt and lo > c: return True
+                if o is ast.Gt and hi <= c: return False
+                if o is ast.GtE and lo >= c: return True
+                if o is ast.GtE and hi < c: return False
         if isinstance(a, ALin) or isinstance(b, ALin):
             la, lb = as_lin(a), as_lin(b)
             if la is not None and lb is not None and la.key() == lb.key() and isinstance(op, (ast.Eq, ast.NotEq)):
@@ -879,6 +927,37 @@ class Interp:
             if isinstance(f.value, ast.Name) and f.value.id == 'math' and m in ('ceil', 'floor', 'trunc') and len(args) == 1 and isinstance(args[0], AInt) and args[0].v is not None:
                 import math as _m
                 return AInt(int(getattr(_m, m)(args[0].v)))
+            if isinstance(f.value, ast.Name) and f.value.id == 'struct' and m in ('pack', 'unpack') and len(args) == 2 and isinstance(args[0], AStr) and args[0].literal() is not None:
+                sf = _struct_fmt(args[0].literal())
+                if sf is None:
+                    raise Unknown(f"struct format {args[0].literal()!r} at line {e.lineno}")
+                order, size, kind = sf
+                x = args[1]
+                if m == 'pack':
+                    if kind == 'float' and isinstance(x, AFloat) and x.width == 8 * size:
+                        vec = list(x.bits) + [0] * (8 * size - len(x.bits))
+                    elif kind == 'int' and isinstance(x, AInt) and x.vec() is not None and len(B.trim(x.vec())) <= 8 * size:
+                        vec = list(x.vec()) + [0] * (8 * size - len(x.vec()))
+                    else:
+                        raise Unknown(f"struct.pack({args[0].literal()!r}, {x!r}) at line {e.lineno}")
+                    items = [norm_byte(vec[8 * i: 8 * i + 8]) for i in range(size)]
+                    if order == 'big':
+                        items.reverse()
+                    return ABytes(items)
+                if not (isinstance(x, ABytes) and len(x.items) == size):
+                    raise Unknown(f"struct.unpack({args[0].literal()!r}, {x!r}) at line {e.lineno}")
+                items = list(x.items) if order == 'little' else list(reversed(x.items))
+                vec = []
+                for it_ in items:
+                    bv = self.byte_to_int(it_).vec() if it_[0] in ('c', 'b') else None
+                    if bv is None:
+                        raise Unknown(f"struct.unpack of an unknown byte at line {e.lineno}")
+                    vec.extend(list(bv) + [0] * (8 - len(bv)))
+                if kind == 'float':
+                    return (AFloat(vec, 8 * size),)
+                if kind == 'int':
+                    return (AInt(None, vec) if any(isinstance(b, tuple) for b in vec) else AInt(sum(b << k for k, b in enumerate(vec))),)
+                raise Unknown(f"struct.unpack kind {kind} at line {e.lineno}")
             if isinstance(f.value, ast.Name) and f.value.id == 'bytes' and m == 'fromhex':
                 x = args[0]
                 if isinstance(x, AStr):
